@@ -110,6 +110,11 @@ func (e *PathMatchExpression) parsex(l *lex) {
 //	   [c, d, e, f]
 //	   [c, d, g, h]
 func (e *PathMatchExpression) expandPaths(sub *PathMatchExpression) {
+	if len(e.paths) == 0 {
+		// a group at the very start: (a;b)
+		e.paths = append(e.paths, sub.paths...)
+		return
+	}
 	expanded := make([]segments, len(e.paths)*len(sub.paths))
 	for i, dest := range e.paths {
 		// every expanded path gets its own copy of the prefix, spare capacity of dest
